@@ -61,11 +61,11 @@ func clampOf(v ssa.Value) (x, m ssa.Value, ok bool) {
 		}
 		// guard in rawBlk: if float64(Abs(raw)) > M goto clBlk
 		iff, isIf := rawBlk.Instrs[len(rawBlk.Instrs)-1].(*ssa.If)
-		if !isIf || rawBlk.Succs[0] != clBlk || len(clBlk.Preds) != 1 {
+		if !isIf || len(clBlk.Preds) != 1 {
 			continue
 		}
-		c, pos, isCmp := ana.AsCmp(iff.Cond)
-		if !isCmp || !pos || c.Op != token.GTR || c.Y != mm {
+		c, succ, _, isCmp := ana.IfCmp(iff, token.GTR)
+		if !isCmp || rawBlk.Succs[succ] != clBlk || c.Y != mm {
 			continue
 		}
 		ab, _ := ana.CallOf(ana.StripConv(c.X))
@@ -358,16 +358,16 @@ func withinMax(raw, m ssa.Value, b *ssa.BasicBlock) bool {
 		if !ok {
 			continue
 		}
-		c, pos, isCmp := ana.AsCmp(iff.Cond)
-		if !isCmp || !pos || c.Op != token.GTR || c.Y != m {
+		c, succ, _, isCmp := ana.IfCmp(iff, token.GTR)
+		if !isCmp || c.Y != m {
 			continue
 		}
 		ab, _ := ana.CallOf(ana.StripConv(c.X))
 		if ab == nil || ana.CalleeName(ab.Common()) != "(time.Duration).Abs" || ab.Common().Args[0] != raw {
 			continue
 		}
-		// the false edge leads to (or is) b without the true edge rejoining first
-		if d == b || d.Succs[1] == b || d.Succs[1].Dominates(b) {
+		// the not-exceeding edge leads to (or is) b without the other edge rejoining first
+		if d == b || d.Succs[1-succ] == b || d.Succs[1-succ].Dominates(b) {
 			if d == b {
 				return true // b itself ends with the test; the phi edge from b is its false edge (checked by the caller through the phi's pred)
 			}
@@ -439,8 +439,8 @@ func peerBounded(v ssa.Value) (raw ssa.Value, flag *ssa.Phi, ok bool) {
 				// raw on this edge must be within the bound: pred ends with the test and this is its false edge, or pred is dominated by the false edge
 				okEdge := false
 				if iff, isIf := pred.Instrs[len(pred.Instrs)-1].(*ssa.If); isIf {
-					c, pos, isCmp := ana.AsCmp(iff.Cond)
-					if isCmp && pos && c.Op == token.GTR && c.Y == m && pred.Succs[1] == ph.Block() {
+					c, succ, _, isCmp := ana.IfCmp(iff, token.GTR)
+					if isCmp && c.Y == m && pred.Succs[1-succ] == ph.Block() {
 						if ab, _ := ana.CallOf(ana.StripConv(c.X)); ab != nil && ana.CalleeName(ab.Common()) == "(time.Duration).Abs" && ab.Common().Args[0] == raw {
 							okEdge = true
 						}
@@ -545,8 +545,8 @@ func c01PeerFlag(p *ana.Prog, r *ana.Result, fn *ssa.Function, flag *ssa.Phi, ra
 			if !isIf {
 				continue
 			}
-			c, pos, isCmp := ana.AsCmp(iff.Cond)
-			if !isCmp || !pos || c.Op != token.GTR {
+			c, succ, _, isCmp := ana.IfCmp(iff, token.GTR)
+			if !isCmp {
 				continue
 			}
 			ab, _ := ana.CallOf(c.X)
@@ -556,7 +556,7 @@ func c01PeerFlag(p *ana.Prog, r *ana.Result, fn *ssa.Function, flag *ssa.Phi, ra
 			if ana.AccessPath(c.Y) != "cfg.PeerClockCutoff" {
 				continue
 			}
-			s := d.Succs[0]
+			s := d.Succs[succ]
 			if len(s.Preds) == 1 && (s == pred || s.Dominates(pred)) {
 				ok = true
 			}
